@@ -230,8 +230,9 @@ func (ctx *checkCtx) run(jobs []Job) int {
 	known := loadKnownFindings()
 	// classify
 	type repItem struct {
-		o  *OblResult
-		rc ReplayCase
+		o   *OblResult
+		rc  ReplayCase
+		alt bool // an alternate model of an obligation whose first model is replayed too
 	}
 	var toReplay []repItem
 	coverSeen := map[string]bool{}
@@ -246,7 +247,7 @@ func (ctx *checkCtx) run(jobs []Job) int {
 					k := o.job.Harness + "/" + o.Label + "/" + o.job.CoverKey
 					if o.Model != nil && !coverSeen[k] && !o.job.Abstract {
 						coverSeen[k] = true
-						toReplay = append(toReplay, repItem{o, ctx.replayCase(o)})
+						toReplay = append(toReplay, repItem{o: o, rc: ctx.replayCase(o)})
 					}
 				case "unsat":
 					if jr.Paths > 1 {
@@ -267,7 +268,7 @@ func (ctx *checkCtx) run(jobs []Job) int {
 			case "unwind":
 				o.Verdict = "inconclusive"
 				if o.Status == "sat" && o.Model != nil {
-					toReplay = append(toReplay, repItem{o, ctx.replayCase(o)})
+					toReplay = append(toReplay, repItem{o: o, rc: ctx.replayCase(o)})
 				}
 			case "known":
 				switch o.Status {
@@ -276,7 +277,7 @@ func (ctx *checkCtx) run(jobs []Job) int {
 				case "sat":
 					o.Verdict = "known"
 					if o.Model != nil {
-						toReplay = append(toReplay, repItem{o, ctx.replayCase(o)})
+						toReplay = append(toReplay, repItem{o: o, rc: ctx.replayCase(o)})
 					}
 				default:
 					o.Verdict = "ok"
@@ -292,7 +293,12 @@ func (ctx *checkCtx) run(jobs []Job) int {
 							o.Detail = "no usable model"
 						}
 					} else {
-						toReplay = append(toReplay, repItem{o, ctx.replayCase(o)})
+						toReplay = append(toReplay, repItem{o: o, rc: ctx.replayCase(o)})
+						for _, am := range o.AltModels {
+							rc := ctx.replayCase(o)
+							rc.Inputs = am
+							toReplay = append(toReplay, repItem{o: o, rc: rc, alt: true})
+						}
 					}
 				default:
 					if o.Lattice > 0 {
@@ -366,7 +372,17 @@ func (ctx *checkCtx) run(jobs []Job) int {
 			continue
 		}
 		for n, i := range idxs {
+			if toReplay[i].alt {
+				continue
+			}
 			ctx.classifyReplay(toReplay[i].o, toReplay[i].rc, outs[n], known)
+		}
+		// an obligation whose first model did not reproduce gets its alternate models judged
+		for n, i := range idxs {
+			it := toReplay[i]
+			if it.alt && it.o.Verdict == "inconclusive" && strings.Contains(it.o.Detail, "does not reproduce") {
+				ctx.classifyReplay(it.o, it.rc, outs[n], known)
+			}
 		}
 	}
 	// summarise
@@ -503,6 +519,11 @@ func (ctx *checkCtx) classifyReplay(o *OblResult, rc ReplayCase, out ReplayOutco
 		switch o.Kind {
 		case "assert":
 			reproduced = contains(out.AssertFails, o.Label)
+			if o.N > 0 && out.Panic != "" {
+				// a combined obligation (assertions and implicit-fault obligations of one path in one query): the native
+				// run panicking is the reproduction of its panic member
+				reproduced = true
+			}
 			if strings.HasPrefix(o.Label, "AppendFloat reached") && len(out.AssertFails) > 0 {
 				// engine-side obligation (no native counterpart): the same input must make a harness assertion fail natively
 				reproduced = true
